@@ -9,4 +9,5 @@ if [ ! -x bin/symgo ] || [ -n "$(find engine -name '*.go' -newer bin/symgo 2>/de
 fi
 # quick tier: run-wide limit (items unfinished by then are inconclusive; confirmed violations are still reported)
 dl=0; [ "${2:-quick}" = quick ] && dl="${VERIF_DEADLINE:-1500}"
-exec bin/symgo -prop "$1" -tier "${2:-quick}" -jobs "${VERIF_JOBS:-16}" -deadline "$dl"
+# VERIF_OUTROOT (seed testing only): write evidence/ and out/ there instead of /verif
+exec bin/symgo -prop "$1" -tier "${2:-quick}" -jobs "${VERIF_JOBS:-16}" -deadline "$dl" ${VERIF_OUTROOT:+-outroot "$VERIF_OUTROOT"}
